@@ -48,3 +48,9 @@ mut("b_contains_dups_all", "src/collection/retry.rs",
 mut("b_raw_write_assert_to_if", "src/mutex/mutex.rs",
     "\t\tassert!(!self.poison.is_poisoned(), \"The mutex has been killed\");",
     "\t\tif self.poison.is_poisoned() {\n\t\t\tpanic!(\"The mutex has been killed\");\n\t\t}")
+
+# ---- renames of crate-internal helpers (anchors are discovered structurally) --------------------------------------------------
+M.append({"name": "b_rename_internal_helpers", "expect": [], "note": "sed-style renames across src/",
+          "rename": [("handle_unwind", "with_recovery"), ("get_locks_unsorted", "listed_locks"), ("get_locks", "sorted_locks"),
+                     ("ordered_contains_duplicates", "has_adjacent_duplicates"), ("KeyCell", "KeyFlag"),
+                     ("clear_poison", "clear_poison"), ("ordered_write", "blocking_write_all")]})
